@@ -92,6 +92,7 @@ func runC06(c *engine.Ctx) {
 	o.Unknown = p.Draw(3, "cfg:unknown") != 0
 	o.Signature = p.Draw(4, "cfg:presigned") == 3
 	o.BareList = true
+	o.LongPipelines = true
 	doc := o.Pipeline()
 	src, format := gen.RenderMaybeMerged(p, doc, true)
 	c.Ev("doc", format, len(src), tape.HashString(string(src)))
